@@ -36,7 +36,11 @@ AS = [
     "documented containment direction: doc/command-line.md 'C(A, B) = B.contained_by(A)' (the option bullet `C(i, j) = size(i intersection j) / size(i)` "
     "in the same file says the opposite; the prose paragraph and the code agree)",
 ]
-RULE = ("(every matrix object handed out in a case is kept UNCOPIED by the adapter and re-read after every later pool-based call and at the end: `recheck`, "
+RULE = ("(ONE operation, several routes: pairwise tables alternate among signature-level / sketch-level / frozen / positional spellings and evaluate every third cell through all of them "
+        "(C16:pairwise-routes-differ), builders alternate keyword / positional arguments and list / tuple inputs; every returned matrix is read through M[i][j], M[i, j], tolist(), "
+        "numpy.array(), numpy.save+load, M.T (C16:views-differ); serial builders are called a second time on the same list; the first table is recomputed at the end of the case; "
+        "quick CLI tier: label edge cases with a scheduled walk through the switches incl. --distance-matrix and --scaled, and one run with 10..14 signatures reloaded through plot) "
+        "(every matrix object handed out in a case is kept UNCOPIED by the adapter and re-read after every later pool-based call and at the end: `recheck`, "
         "oracle C16:earlier-result-changed; compare_parallel returns an np.memmap on a scratch file of np_utils.to_memmap) lists of 1..25 compatible scaled signatures (flat / abundance / mixed, equal or mixed scaled with downsample requested, empty, identical and "
         "disjoint sketches, ksize 3..51); 2-5 measures per case out of similarity (ignore_abundance 0/1), jaccard ANI, containment (+ANI), "
         "max containment (+ANI), avg containment (+ANI); every builder that exists for the measure: compare_serial, compare_parallel with "
@@ -59,6 +63,7 @@ def extra(chk, pkg):
     os.makedirs(tmp_root, exist_ok=True)
     env = dict(os.environ, PYTHONPATH=pkg + os.pathsep + os.path.join(common.VERIF, "harness"), PYTHONHASHSEED="0")
     plans = [(int(os.environ.get("VERIF_C16_CLI_LABELS", "6" if chk.tier == "thorough" else "2")), ["labels"])]
+    plans.append((int(os.environ.get("VERIF_C16_CLI_MANY", "3" if chk.tier == "thorough" else "1")), ["many"]))
     if chk.tier == "thorough":
         plans.append((int(os.environ.get("VERIF_C16_CLI", "40")), []))
     tot = {"runs": 0, "cells": 0, "plot_reloads": 0, "from_file_reordered": 0, "pairwise_refused": 0}
